@@ -274,16 +274,31 @@ func checkC12(c caseC12) (sig, msg string) {
 			return "setter:" + st.Setter + ":" + fieldOf(d), fmt.Sprintf("after step %d %s the accessors differ from the model (got vs model): %s\nmodel: %s", i, st.Setter, d, m.String())
 		}
 		last = m
+		// every prefix of a sequence is a sequence: the frame written now
+		// reflects the state reached so far (checked after the last step and
+		// after three steps out of four before it)
+		if i == len(c.Steps)-1 || i%4 != 3 {
+			if sig, msg := frameReflects(p, last, i); msg != "" {
+				return sig, msg
+			}
+		}
 	}
-	// the encoded frame reflects the same final state
+	if len(c.Steps) == 0 {
+		return frameReflects(p, last, -1)
+	}
+	return "", ""
+}
+
+// frameReflects: the encoded frame reflects the state the setters produced.
+func frameReflects(p mq.ControlPacket, last model.Packet, step int) (sig, msg string) {
 	if last.WellFormedMQTT() && c12Encodable(&last) {
 		frame, _, err, pan := write(p)
 		if pan != nil || err != nil {
-			return "write", fmt.Sprintf("WriteTo after the sequence failed: %v %v", err, pan)
+			return "write", fmt.Sprintf("WriteTo after step %d failed: %v %v", step, err, pan)
 		}
 		got, err := ref.DecodeStrict(frame)
 		if err != nil {
-			return "final-frame-invalid", fmt.Sprintf("the frame written after the sequence is not valid: %v\nframe %s\nmodel: %s", err, hx(frame), last.String())
+			return "final-frame-invalid", fmt.Sprintf("the frame written after step %d is not valid: %v\nframe %s\nmodel: %s", step, err, hx(frame), last.String())
 		}
 		want := expectAfterWire(last)
 		if want.Will == nil {
@@ -293,7 +308,7 @@ func checkC12(c caseC12) (sig, msg string) {
 			got.SubID = 0 // an absent property counts as the zero value
 		}
 		if d := model.Diff(got, want); d != "" {
-			return "final-frame:" + fieldOf(d), fmt.Sprintf("the frame written after the sequence does not reflect the final state (frame vs model): %s\nframe %s", d, hx(frame))
+			return "final-frame:" + fieldOf(d), fmt.Sprintf("the frame written after step %d does not reflect the state reached (frame vs model): %s\nframe %s", step, d, hx(frame))
 		}
 	}
 	return "", ""
@@ -331,7 +346,7 @@ func TestC12(t *testing.T) {
 		return
 	}
 
-	perType := vf.N(320, 100000)
+	perType := vf.N(960, 100000)
 	for typ := uint8(1); typ <= 15; typ++ {
 		typ := typ
 		ss := api.Setters(typ)
@@ -362,8 +377,27 @@ func TestC12(t *testing.T) {
 			calls := map[string]int{}
 			nt := false
 			prev := map[string]string{}
+			burst, burstOf := 0, 0
 			for i := 0; i < n; i++ {
-				s := ss[rapid.IntRange(0, len(ss)-1).Draw(t, "setter")]
+				si := rapid.IntRange(0, len(ss)-1).Draw(t, "setter")
+				if burst > 0 {
+					// the same setter several times in a row with fresh values:
+					// long, short, medium ... (what a buffer kept from an earlier
+					// value can and cannot hold)
+					si = burstOf
+					burst--
+				} else if rapid.IntRange(0, 7).Draw(t, "burst") == 0 {
+					burst, burstOf = rapid.IntRange(2, 4).Draw(t, "burstlen"), si
+					if typ == model.CONNECT && rapid.IntRange(0, 1).Draw(t, "burstwill") == 0 {
+						// the will is a packet of its own with several buffers
+						for k, cand := range ss {
+							if cand.Name == "SetWill" {
+								si, burstOf = k, k
+							}
+						}
+					}
+				}
+				s := ss[si]
 				before := packModel(m)
 				mutateField(t, &m, s.Name)
 				idx := 0
